@@ -21,7 +21,8 @@ class C02(MotionMonitor):
     classes = [(3, "no-regions", {}), (3, "disabled-throughout", {}),
                (4, "avoided", mk(arcs=True, arcs_rel=True, rel=True, inch=True, avoid=True, p_inside=0.0, margin=0.05, g28mid=False,
                                  spell=True)),
-               (2, "avoided-with-toggles", mk(arcs=True, arcs_rel=True, rel=True, at=True, avoid=True, p_inside=0.0, margin=0.05)),
+               (2, "avoided-with-toggles", mk(arcs=True, arcs_rel=True, rel=True, at=True, avoid=True, p_inside=0.0, margin=0.05,
+                                              p_arc=0.15, p_at=0.08, start_rel=0.7)),
                (1, "avoided-firmware", mk(fw=True, arcs=True, arcs_rel=True, rel=True, avoid=True, p_inside=0.0, retmove=True))]
 
     def gen_case(self, rnd, tier, k):
